@@ -93,7 +93,29 @@ def upsertMid (s : State) (k : Nat) (e : Entry) (v : Option Nat) (ne : Option Na
 def chargedWeight (s : State) (id : Nat) : Int :=
   match s.adm.kw.get? id with | some wk => wk.weight | none => 0
 
-/-- the weight the `UpdateWeight` command carries, if one is sent -/
+/-- the weight currently charged for an id, if it is charged at all (`weight_of(&key_id)`; fix c86efeb: an id that is
+    no longer charged has no weight to adjust) -/
+def chargedWeight? (s : State) (id : Nat) : Option Int := (s.adm.kw.get? id).map (·.weight)
+
+theorem chargedWeight?_eq_some {s : State} {id : Nat} {wk : WKey} (h : s.adm.kw.get? id = some wk) :
+    chargedWeight? s id = some wk.weight := by
+  simp [chargedWeight?, h]
+
+theorem chargedWeight?_eq_none {s : State} {id : Nat} (h : s.adm.kw.get? id = none) : chargedWeight? s id = none := by
+  simp [chargedWeight?, h]
+
+theorem chargedWeight?_some_iff {s : State} {id : Nat} {x : Int} :
+    chargedWeight? s id = some x ↔ ∃ wk, s.adm.kw.get? id = some wk ∧ wk.weight = x := by
+  unfold chargedWeight?
+  cases s.adm.kw.get? id <;> simp
+
+theorem chargedWeight_of_some {s : State} {id : Nat} {x : Int} (h : chargedWeight? s id = some x) :
+    chargedWeight s id = x := by
+  obtain ⟨wk, hw, hx⟩ := chargedWeight?_some_iff.mp h
+  simp [chargedWeight, hw, hx]
+
+/-- the weight the `UpdateWeight` command carries, if one is sent (none is sent for a pure time-to-live change of a key
+    id that is not charged) -/
 def upsertWeight (s : State) (e : Entry) (v : Option Nat) (w : Option Int) (ttl : Option Nat) (ne : Option Nat) :
     Option Int :=
   match w with
@@ -103,8 +125,8 @@ def upsertWeight (s : State) (e : Entry) (v : Option Nat) (w : Option Int) (ttl 
     | some val => some (s.cfg.weightOf val ttl.isSome)
     | none =>
       match e.expiry, ne with
-      | none, some _ => some (chargedWeight s e.id + s.cfg.ttlEntry)
-      | some _, none => some (chargedWeight s e.id - s.cfg.ttlEntry)
+      | none, some _ => (chargedWeight? s e.id).map (· + s.cfg.ttlEntry)
+      | some _, none => (chargedWeight? s e.id).map (· - s.cfg.ttlEntry)
       | _, _ => none
 
 /-- the tail of `put_or_update`: assertions on the weight, then the send (or the on-the-spot answer) -/
@@ -178,17 +200,17 @@ theorem clientUpsert_present (s : State) (c k : Nat) (v : Option Nat) (w : Optio
     cases he : e.expiry with
     | none =>
       cases ne <;> cases w <;> cases v <;>
-        simp [typeOfExpiryUpdate, upsertFinish, upsertMid, upsertWeight, upsertIndex, chargedWeight, he,
+        simp [typeOfExpiryUpdate, upsertFinish, upsertMid, upsertWeight, upsertIndex, chargedWeight?, he,
           ttlPut, ttlDelete, ttlUpdate] <;> rfl
     | some a =>
       cases ne with
       | none =>
         cases w <;> cases v <;>
-          simp [typeOfExpiryUpdate, upsertFinish, upsertMid, upsertWeight, upsertIndex, chargedWeight, he,
+          simp [typeOfExpiryUpdate, upsertFinish, upsertMid, upsertWeight, upsertIndex, chargedWeight?, he,
             ttlPut, ttlDelete, ttlUpdate] <;> rfl
       | some b =>
         by_cases hab : a = b <;> cases w <;> cases v <;>
-          simp [typeOfExpiryUpdate, upsertFinish, upsertMid, upsertWeight, upsertIndex, chargedWeight, he, hab,
+          simp [typeOfExpiryUpdate, upsertFinish, upsertMid, upsertWeight, upsertIndex, chargedWeight?, he, hab,
             ttlPut, ttlDelete, ttlUpdate] <;> rfl
 
 theorem clientUpsert_present_overflow (s : State) (c k : Nat) (v : Option Nat) (w : Option Int) (ttl : Option Nat)
@@ -436,11 +458,10 @@ theorem foldl_applyEvict_worker (evs : List Evicted) (s : State) : (evs.foldl ap
   | cons e rest ih => rw [List.foldl_cons, ih, applyEvict_worker]
 
 theorem sweepEvict_worker (s : State) (id : Nat) : (sweepEvict s id).1.worker = s.worker := by
-  unfold sweepEvict
-  simp only []
-  split
-  · exact (applyEvictId_rest _ _).2.2.2.2.2.2.2.2.2.2.2.1
-  · rfl
+  rcases sweepEvict_cases s id with h0 | ⟨wk, _, _, h1⟩
+  · rw [h0]
+  · rw [h1]
+    exact (applyEvictId_rest _ _).2.2.2.2.2.2.2.2.2.2.2.1
 
 theorem sweepEntries_worker : ∀ (l : List ((Nat × Nat) × Nat)) (s : State) (acc : List Evicted),
     (sweepEntries s l acc).1.worker = s.worker := by
